@@ -14,18 +14,19 @@ def _fn(src, name):
     return m.group(0)
 
 
-@extractor
+@extractor(soft=True)
 def humansize_consts(repo):
     src = strip_c_comments(read(repo, "util/humansize.c"))
     msgs = []
     f = _fn(src, "humansize")
-    m = re.search(r'prefix\s*=\s*"([^"]*)"\s*\[\s*shiftcnt\s*\]', f)
+    ID = r"[A-Za-z_]\w*"
+    m = re.search(r'=\s*"([^"]*)"\s*\[\s*' + ID + r'\s*\]', f)
     if not m:
         raise KeyError('prefix = "..."[shiftcnt] not found')
     prefixes = [ord(c) for c in m.group(1)]
     m1 = re.search(r"if\s*\(\s*size\s*<\s*(\d+)\s*\)\s*\{", f)
-    m2 = re.search(r"for\s*\(\s*size\s*/=\s*(\d+)\s*,\s*shiftcnt\s*=\s*(\d+)\s*;\s*size\s*>=\s*(\d+)\s*;\s*shiftcnt\+\+\s*\)\s*size\s*/=\s*(\d+)\s*;", f)
-    m3 = re.search(r"if\s*\(\s*size\s*<\s*(\d+)\s*\)\s*rc\s*=", f)
+    m2 = re.search(r"for\s*\(\s*size\s*/=\s*(\d+)\s*,\s*(?:" + ID + r")\s*=\s*(\d+)\s*;\s*size\s*>=\s*(\d+)\s*;\s*(?:\+\+\s*" + ID + r"|" + ID + r"\s*\+\+)\s*\)\s*size\s*/=\s*(\d+)\s*;", f)
+    m3 = re.search(r"if\s*\(\s*size\s*<\s*(\d+)\s*\)\s*" + ID + r"\s*=", f)
     if not (m1 and m2 and m3):
         raise KeyError("humansize: thresholds not found")
     p = _fn(src, "humansize_parse")
@@ -34,8 +35,8 @@ def humansize_consts(repo):
     if not m4:
         raise KeyError("humansize_parse: SI switch not found")
     body = re.sub(r"\s+", "", m4.group(1))
-    labels = re.findall(r"case'(.)':multiplier\*=(\d+);", body)
-    if "".join("case'%s':multiplier*=%s;" % lf for lf in labels) != body:
+    labels = re.findall(r"case'(.)':[A-Za-z_]\w*\*=(\d+);", body)
+    if re.sub(r":[A-Za-z_]\w*\*=", ":M*=", body) != "".join("case'%s':M*=%s;" % lf for lf in labels):
         raise KeyError("humansize_parse: SI switch has an unexpected shape: %s" % body)
     txt = "-- GENERATED from util/humansize.c by tools/extractors/c16.py\nnamespace Percival.Gen.HumansizeC\n"
     txt += lean_list("prefixes", "UInt8", prefixes, fmt="0x%02x")
